@@ -177,6 +177,8 @@ func runC16(c *Ctx) {
 	runC16WaitOptions(c, w)
 	runC16ResultSets(c, w)
 	runC16BadConnection(c, w)
+	runC16Ping(c, w)
+	runC16SelectListArg(c, w)
 	xa := w.OpenXA()
 	rng := NewRng(c.Seed)
 	n := c.Budget(200, 20000)
